@@ -594,7 +594,12 @@ func c08RMW(c *Ctx) {
 			continue
 		}
 		for _, call := range calls {
-			okEdge, why := errorBlocksTargets(call, writes)
+			// a notebook that does not exist yet is an empty notebook, not a failure
+			var tol map[[2]int]bool
+			if src == "os.ReadFile" {
+				tol = notExistEdges(call)
+			}
+			okEdge, why := errorBlocksTargetsExcept(call, writes, tol)
 			r.Check(okEdge, "O-3", fk+"#error-guard:"+short, c.P.Pos(call.Pos()), "a failure returns before any write", why)
 		}
 	}
@@ -749,6 +754,12 @@ func c08MatchIndex(fn *ssa.Function, cd map[*ssa.BasicBlock][]ssau.CtrlDep, idx 
 // non-nil side cannot reach any of the target calls; moreover every path from
 // the call to a target passes that test.
 func errorBlocksTargets(call *ssa.Call, targets []*ssa.Call) (bool, string) {
+	return errorBlocksTargetsExcept(call, targets, nil)
+}
+
+// errorBlocksTargetsExcept: as errorBlocksTargets, with some failure edges
+// declared tolerable (a missing file that is treated as "nothing there yet").
+func errorBlocksTargetsExcept(call *ssa.Call, targets []*ssa.Call, tolerated map[[2]int]bool) (bool, string) {
 	var errv ssa.Value
 	if tup, ok := call.Type().(*types.Tuple); ok {
 		for _, ref := range *call.Referrers() {
@@ -766,6 +777,9 @@ func errorBlocksTargets(call *ssa.Call, targets []*ssa.Call) (bool, string) {
 	cut, _ := nilTests(errv)
 	if len(cut) == 0 {
 		return false, "the error result is never compared with nil"
+	}
+	for e := range tolerated {
+		cut[e] = true
 	}
 	// with the success edges removed, no target may be reachable from the call
 	for _, t := range targets {
